@@ -25,7 +25,7 @@
    before the Reply).  A LEO() read returns the published value and, because the code
    documents that value as durable, vouches for the state whose publication it saw.
    Acceptance is by the high-water mark of consumed lines. *)
-EXTENDS MessageLogCrash, Json
+EXTENDS MessageLogCrashB, Json
 VARIABLES l, pend, done, unpub, vis, visAt
 
 Log == ndJsonDeserialize("trace.ndjson")
@@ -56,6 +56,7 @@ Reset0 ==
   /\ prop'  = [c \in Chans |-> Empty]
   /\ hist'  = [c \in Chans |-> << EmptySnap >>]
   /\ hbase' = [c \in Chans |-> 1]
+  /\ eh'    = [c \in Chans |-> << >>]
   /\ cfg' = Log[l].ev.cfg
   /\ ev' = Log[l].ev
   /\ pend' = Empty /\ done' = Empty /\ unpub' = NoQueue /\ vis' = Zero /\ visAt' = One
@@ -72,13 +73,18 @@ Call(k) ==
     [] k.a = "Replace"  -> Replace(k.c, k.keep, k.ps, k.hw)
     [] k.a = "Discard"  -> Discard(k.c)
     [] k.a = "Leo"      -> LeoRead(k.c)
+    [] k.a = "BeginEpoch" -> BeginEpoch(k.c, k.e, k.s)
+    [] k.a = "AppendHist" -> AppendHist(k.c, k.e, k.s)
+    [] k.a = "ApplyE"     -> ApplyE(k.c, k.mode, k.recs, k.hw, k.e, k.s)
+    [] k.a = "TruncLH"    -> TruncLH(k.c, k.to)
+    [] k.a = "HistTrunc"  -> HistTrunc(k.c, k.t)
 
 Lazy == l <= Len(Log) /\ Log[l].ev.a \in {"Reply", "Recovered"}
 
 \* the call runs (under its lock)
 Exec(op) ==
   /\ Lazy
-  /\ op \in DOMAIN pend /\ pend[op].a # "Leo"
+  /\ op \in DOMAIN pend /\ pend[op].a \notin {"Leo", "Batch"}
   /\ LET k == pend[op]
          c == k.c IN
        /\ Call(k)
@@ -110,10 +116,43 @@ ExecLeo(op) ==
   /\ pend' = Del(pend, {op})
   /\ UNCHANGED <<cvars, l, unpub, vis, visAt>>
 
-KeepStore == UNCHANGED <<rows, ret, ckpt, idem, cli, snd, idIdx, mem, open, dbOpen, cfg, ev, ident, prop>>
+KeepStore == UNCHANGED <<rows, ret, ckpt, idem, cli, snd, idIdx, mem, open, dbOpen, cfg, ev, ident, prop, eh>>
 
 Explains(st) ==
   \A c \in Chans : \E i \in 1..Len(hist[c]) : ColdProj(hist[c][i], c) = st[c]
+
+(* A multi-item StoreAppendBatch call (MessageLogCrashB): ONE Exec for all of its channels, one
+   element of the commit sequence of each, one pending publication of the cached log end per
+   channel.  An attempt whose context was cancelled before the group reached the commit
+   coordinator (the harness attaches the reply it returned to the call: k.rep) has no effect and
+   must satisfy BatchCancelled: nothing reported durable, "already" only for a proposal that is
+   stored.  A reply vouches, per channel, for the state the call left when it changed the
+   channel or reported one of its items already durable. *)
+ExecB(op) ==
+  /\ Lazy
+  /\ op \in DOMAIN pend /\ pend[op].a = "Batch"
+  /\ LET k == pend[op]
+         T == ChansOf(k.items) IN
+       /\ IF "rep" \in DOMAIN k /\ k.rep.cancelled THEN BatchCancelled(k.items, k.rep.items) ELSE Batch(k.items, FALSE)
+       /\ LET ats == [c \in T |-> hbase'[c] + Len(hist'[c]) - 1]
+              chg == [c \in T |-> SnapP(c) # Snap(c)]
+              alr == [c \in T |-> \E i \in 1..Len(k.items) : k.items[i].c = c /\ ev'.res.items[i].out = "already"]
+          IN /\ done' = Put(done, op, [res |-> ev'.res, T |-> T, ats |-> ats, claims |-> [c \in T |-> chg[c] \/ alr[c]]])
+             /\ unpub' = [c \in Chans |-> IF c \in T THEN Append(unpub[c], [op |-> op, leo |-> mem'[c].leo, at |-> ats[c], chg |-> chg[c]])
+                                          ELSE unpub[c]]
+  /\ pend' = Del(pend, {op})
+  /\ UNCHANGED <<l, vis, visAt>>
+
+ReplyB(e) ==
+  LET d == done[e.op]
+      Cut(c) == c \in d.T /\ d.claims[c] /\ d.ats[c] > hbase[c]
+  IN /\ \A c \in d.T : \A i \in 1..Len(unpub[c]) : unpub[c][i].op # e.op
+     /\ d.res = e.res
+     /\ done'  = Del(done, {e.op})
+     /\ hist'  = [c \in Chans |-> IF Cut(c) THEN SubSeq(hist[c], d.ats[c] - hbase[c] + 1, Len(hist[c])) ELSE hist[c]]
+     /\ hbase' = [c \in Chans |-> IF Cut(c) THEN d.ats[c] ELSE hbase[c]]
+     /\ UNCHANGED <<rows, ret, ckpt, idem, cli, snd, idIdx, mem, open, dbOpen, cfg, ev, ident, prop, eh>>
+     /\ UNCHANGED <<pend, unpub, vis, visAt>>
 
 Read ==
   /\ l <= Len(Log)
@@ -122,6 +161,7 @@ Read ==
        CASE e.a = "Init"  -> Reset0
          [] e.a = "Issue" -> /\ pend' = Put(pend, e.op, e.call)
                              /\ KeepStore /\ UNCHANGED <<hist, hbase, done, unpub, vis, visAt>>
+         [] e.a = "Reply" /\ e.op \in DOMAIN done /\ "T" \in DOMAIN done[e.op] -> ReplyB(e)
          [] e.a = "Reply" ->
               /\ e.op \in DOMAIN done
               /\ \A i \in 1..Len(unpub[done[e.op].c]) : unpub[done[e.op].c][i].op # e.op
@@ -138,7 +178,7 @@ Read ==
               /\ Explains(Log[l].st)
               /\ KeepStore /\ UNCHANGED <<hist, hbase, pend, done, unpub, vis, visAt>>
 
-TraceNext == Read \/ (\E op \in DOMAIN pend : Exec(op) \/ ExecLeo(op)) \/ (\E c \in Chans : Publish(c))
+TraceNext == Read \/ (\E op \in DOMAIN pend : Exec(op) \/ ExecLeo(op) \/ ExecB(op)) \/ (\E c \in Chans : Publish(c))
 
 TraceSpec == TraceInit /\ [][TraceNext]_tvars
 
